@@ -109,6 +109,12 @@ def balanced_reaction(draw, labels, masses):
     return sub, prod
 
 
+# units system of the script (None: the default one). The laws are stated on amounts: they hold in whatever unit the
+# engine is asked to work and report in.
+script_units = st.one_of(st.none(), st.none(), st.fixed_dictionaries({
+    "space": st.sampled_from(si.SPACE_SYMS), "time": st.sampled_from(si.TIME_SYMS), "quantity": st.sampled_from(si.QUANTITY_SYMS)}))
+
+
 @st.composite
 def case(draw, pure_diffusion=False, around_chemostat=False):
     base = draw(gen.system_spec(variety="mild", max_species=4, max_reactions=0, max_cells=12, max_axis=4, min_species=2,
@@ -162,7 +168,8 @@ def case(draw, pure_diffusion=False, around_chemostat=False):
         spec["chemostats"] = flags
         return {"sys": spec, "masses": masses, "engine": draw(st.sampled_from(["euler", "tauleap", "gillespie", "tauleap"])),
                 "steps": draw(st.integers(20, 400)), "seed": draw(st.integers(0, 2 ** 32 - 1)),
-                "route": draw(st.sampled_from(["ctor", "dict"])), "mode": draw(st.sampled_from(["auto", "none"]))}
+                "route": draw(st.sampled_from(["ctor", "dict"])), "mode": draw(st.sampled_from(["auto", "none"])),
+                "units": draw(script_units), "reuse": draw(st.integers(0, 3)) == 0}
     if draw(st.integers(0, 2)) == 0:
         # prefer a species in the middle of the species order: an engine that mishandles the flag of species k
         # while updating the species around it only shows when k sits between two reacting, unflagged species
@@ -174,7 +181,8 @@ def case(draw, pure_diffusion=False, around_chemostat=False):
     spec["chemostats"] = flags
     return {"sys": spec, "masses": masses, "engine": draw(st.sampled_from(["euler", "tauleap", "gillespie"])),
             "steps": draw(st.integers(20, 400)), "seed": draw(st.integers(0, 2 ** 32 - 1)),
-            "route": draw(st.sampled_from(["ctor", "dict"])), "mode": draw(st.sampled_from(["auto", "none"]))}
+            "route": draw(st.sampled_from(["ctor", "dict"])), "mode": draw(st.sampled_from(["auto", "none"])),
+            "units": draw(script_units), "reuse": draw(st.integers(0, 3)) == 0}
 
 
 def stable_dt(x, sc):
@@ -219,10 +227,29 @@ def run(ctx, c, pure_diffusion):
     system = sut_call("build_system", B.build_system, spec, c["route"])
     from vlib.ratelaw import tame_dt
     dt = tame_dt(model, flags)
+    kw = {}
+    if c.get("units"):
+        kw["units_system"] = B.US(c["units"])
     script = sut_call("RDScript", S.RDScript, system, [0], time_step="%r s" % dt, t_max="%r s" % (dt * 10 ** 7),
-                      sampling_policy="on_iteration", rng_seed=c["seed"], init_state_processing=c["mode"])
-    traj, done, _ = sut_call("engine run", sim.drive, script, kind, c["steps"])
-    d = si.si_floats(traj.data) if kind == "euler" else [float(v) for v in traj.data.value]
+                      sampling_policy="on_iteration", rng_seed=c["seed"], init_state_processing=c["mode"], **kw)
+    eng = None
+    if c.get("reuse"):
+        # the engine object has been used before, for another network on the same species and space: a first-order
+        # sink of the first species (any trace of it in the second run breaks that species' laws)
+        prev = dict(spec)
+        sp_ = spec["space"]
+        prev["reactions"] = [{"sub": {model.labels[0]: 1}, "prod": {}, "units": {"mode": "omit", "sys": dict(spec["net_units"]["sys"])},
+                              "kf": {"si": gen.fs(F(1, 100) / F(dt).limit_denominator(10 ** 30)), "form": "bare", "sys": dict(gen.DEFAULT), "style": 0},
+                              "kr": {"si": "0/1", "form": "bare", "sys": dict(gen.DEFAULT), "style": 0}, "label": None, "eq_form": "str"}]
+        prev_system = sut_call("build_system (previous run)", B.build_system, prev, c["route"])
+        prev_script = sut_call("RDScript", S.RDScript, prev_system, [0], time_step="%r s" % dt, t_max="%r s" % (dt * 10 ** 7),
+                               sampling_policy="on_iteration", rng_seed=c["seed"], init_state_processing=c["mode"], **kw)
+        eng = sim.engine(kind)
+        sut_call("engine run (previous network)", sim.drive, prev_script, kind, 3, eng=eng)
+        ctx.count("engine-object-reused")
+    traj, done, _ = sut_call("engine run", sim.drive, script, kind, c["steps"], eng=eng)
+    molecules = not c.get("units") or c["units"]["quantity"] == "molecule"
+    d = si.si_floats(traj.data) if (kind == "euler" or not molecules) else [float(v) for v in traj.data.value]
     m = ns * n
     nsamp = len(d) // m
     changed = nsamp >= 2 and d[:m] != d[(nsamp - 1) * m:nsamp * m]
@@ -246,7 +273,7 @@ def run(ctx, c, pure_diffusion):
             if tot0 is None:
                 tot0 = tot
                 continue
-            if kind == "euler":
+            if kind == "euler" or not molecules:      # amounts reported in another unit: converted floats
                 ok = abs(tot - tot0) <= 1e-9 * mag + 1e-300
             else:
                 ok = tot == tot0
